@@ -14,10 +14,29 @@ def _sizes(report, quick, thorough):
     return thorough if report.tier == 'thorough' else quick
 
 
+def stale_maintenance_histories():
+    """One call at a time, two handles: a handle that queried the index earlier (its session holds that snapshot) runs a
+    maintenance operation after another handle has stored objects.  Monitor only (no model of SQLite refusing a write
+    from an older snapshot: where the library raises `database is locked` the store must simply be unchanged)."""
+    ap = lambda h, ks, z=False: {'name': 'addpack', 'h': h, 'keys': ks, 'z': z, 'noholes': False, 'twice': True, 'via': 'bytes'}  # noqa
+    out = []
+    pins = ({'name': 'has', 'h': 'h1', 'keys': ['k1']}, {'name': 'list', 'h': 'h1'}, {'name': 'get', 'h': 'h1', 'keys': ['k1', 'k9']})
+    for pin in pins:
+        for mode in ('KEEP', 'YES'):
+            for setup in ([{'name': 'add', 'h': 'h1', 'keys': ['k1'], 'via': 'bytes'}], [ap('h1', ['k1'])], []):
+                steps = [dict(x) for x in setup] + [dict(pin), ap('h2', ['k2', 'k3'], z=True),
+                                                    {'name': 'repack', 'h': 'h1', 'mode': mode},
+                                                    {'name': 'get', 'h': 'h2', 'keys': ['k1', 'k2', 'k3']}]
+                out.append(({'hash': 'sha256', 'prefix': 2, 'zlevel': 1, 'target': 10 ** 9, 'noconform': True}, steps))
+    return out
+
+
 def check_C02(report):
     n, length = _sizes(report, (240, 12), (4000, 25))
     seq.model_check(report, 3, 5, ['Refines', 'ViewsEqualMap', 'ListEqualsMap', 'SnapshotsAreOld'], ['Act_MaintenanceKeepsMap'])
-    seq.run_histories(report, 'C02', n, length, ['C02'], sim=(80 if report.tier == 'quick' else 1200, 12))
+    extra = stale_maintenance_histories()
+    seq.run_histories(report, 'C02', n, length, ['C02'], extra_histories=extra, sim=(80 if report.tier == 'quick' else 1200, 12))
+    report.set('stale_handle_maintenance_histories', len(extra))
     report.assumptions += ASSUME
 
 
